@@ -135,8 +135,8 @@ func (d *Decoder) DecodeTag() (tag int, wireType WireType, err error) {
 	if err != nil {
 		return 0, -1, fmt.Errorf("invalid data at byte %d: %w", d.offset, err)
 	}
-	// v holds the field key, (tag << 3) | wireType, so the tag limit applies to v >> 3
-	if n < 1 || v < 1 || (v>>3) > MaxTagValue {
+	// v holds the field key, (tag << 3) | wireType, so the tag limits apply to v >> 3 (0 is not a valid field number)
+	if n < 1 || (v>>3) < 1 || (v>>3) > MaxTagValue {
 		return 0, -1, fmt.Errorf("invalid tag value (%d) at byte %d: %w", v, d.offset, ErrInvalidFieldTag)
 	}
 	d.offset += n
